@@ -14,7 +14,7 @@ from queue import Empty, Full
 from . import evlog
 
 SCALE = 0.02
-PROFILES = ["natural", "jitter", "straggler", "slow_dispatcher", "slow_feeder", "slow_workers", "late_start", "burst", "pct", "late_check"]
+PROFILES = ["natural", "jitter", "straggler", "slow_dispatcher", "slow_feeder", "slow_workers", "late_start", "burst", "pct", "late_check", "stall", "slow_isset", "heavy_tail"]
 
 _S = dict(installed=False, profile="natural", seed=0, scale=SCALE, qn=0, orig={}, stage_pid=None)
 _rng = [None, None]
@@ -62,7 +62,7 @@ def _role(q):
 def delay(point, role=None):
     """apply the delay profile at a hook point"""
     p = _S["profile"]
-    if p in ("natural", "burst", "straggler"):
+    if p in ("natural", "burst", "straggler", "heavy_tail"):
         return
     r = rng()
     to = scaled_timeout()
@@ -88,6 +88,14 @@ def delay(point, role=None):
             time.sleep(0.03 + 0.05 * r.random())
         elif role == "owner" and point == "put":
             time.sleep(to * (1.5 + r.random()))
+    elif p == "stall":
+        # the producer / dispatcher is held up for many receive time-outs in a row (expensive filter, swapped-out parent,
+        # slow image load) a few times per run; workers sit idle meanwhile
+        if role == "owner" and point in ("put", "after_get"):
+            st = _S.setdefault("stall_%d" % os.getpid(), dict(n=0, at={r.choice([1, 2]), r.choice([3, 4, 5])}))
+            st["n"] += 1
+            if st["n"] in st["at"]:
+                time.sleep(to * (12 + 20 * r.random()))
     elif p == "pct":
         # random priority per process, a few random priority changes
         st = _S.setdefault("pct_%d" % os.getpid(), dict(rank=r.randrange(6), n=0, changes=sorted(r.sample(range(1, 200), 3))))
@@ -112,7 +120,13 @@ def cb_delay(pos, kind="walk"):
             time.sleep(r.random() * 0.02)
     elif p == "pct":
         delay("cb")
-    elif p in ("natural", "slow_dispatcher", "late_start"):
+    elif p == "heavy_tail":
+        # callback durations with a heavy tail: most take a millisecond, a quarter take several receive time-outs
+        if r.random() < 0.25:
+            time.sleep(scaled_timeout() * (1.5 + 3 * r.random()))
+        else:
+            time.sleep(r.random() * 0.002)
+    elif p in ("natural", "slow_dispatcher", "late_start", "stall", "slow_isset"):
         time.sleep(r.random() * 0.004)
     elif p == "slow_workers":
         time.sleep(0.005 + r.random() * 0.01)
@@ -210,10 +224,25 @@ def _p_join(self, timeout=None):
 
 def _e_set(self):
     evlog.ev("event_set")
-    return _S["orig"]["e_set"](self)
+    r = _S["orig"]["e_set"](self)
+    evlog.ev("event_set_ret")
+    return r
 
 
 def _e_is_set(self):
+    evlog.ev("is_set_call")
+    if _S["profile"] == "slow_isset" and mpp.current_process().name != "MainProcess":
+        # a worker is descheduled inside Event.is_set, i.e. while it holds the event's internal lock (same statements as
+        # CPython's Event.is_set, with a pause after the lock is taken)
+        with self._cond:
+            time.sleep(0.01 + 0.02 * rng().random())
+            if self._flag.acquire(False):
+                self._flag.release()
+                r = True
+            else:
+                r = False
+        evlog.ev("is_set", v=r)
+        return r
     r = _S["orig"]["e_is_set"](self)
     evlog.ev("is_set", v=bool(r))
     return r
@@ -221,7 +250,7 @@ def _e_is_set(self):
 
 def install(profile="natural", seed=0, scale=SCALE):
     _S.update(profile=profile, seed=seed, scale=scale, qn=0)
-    for k in [k for k in _S if k.startswith("pct_")]:
+    for k in [k for k in _S if k.startswith("pct_") or k.startswith("stall_")]:
         del _S[k]
     if _S["installed"]:
         return
